@@ -7,6 +7,7 @@ package sim
 import (
 	"encoding/json"
 	"fmt"
+	"math"
 	"net/http"
 	"reflect"
 	"sort"
@@ -182,6 +183,12 @@ func (v Val) Go() any {
 		return NamedStruct(int(v.I))
 	case "sharedptr":
 		return SharedPtr(int(v.I))
+	case "intmap":
+		out := make(map[int]string, len(v.K))
+		for i := range v.K {
+			out[i+1] = v.V[i].S
+		}
+		return out
 	case "deep":
 		// a map nested v.I levels deep: {"d": {"d": ... {"leaf": v.I}}}
 		var cur any = map[string]any{"leaf": int(v.I)}
@@ -194,6 +201,13 @@ func (v Val) Go() any {
 		p := reflect.New(reflect.TypeOf(inner))
 		p.Elem().Set(reflect.ValueOf(inner))
 		return p.Interface()
+	case "nilptr":
+		// a typed nil pointer: the conversion of data dereferences it
+		return (*struct{ Name string })(nil)
+	case "nan":
+		return math.NaN()
+	case "inf":
+		return math.Inf(1)
 	case "chan":
 		return make(chan int)
 	case "func":
